@@ -47,11 +47,11 @@ Theorem C15_shift_expression_partial : forall k (p1 p2 : prepared) n1 t1,
   shifted k p1 p2 ->
   entry_expression _ _ _ _ _ (policy_ops (pr_lines p1))
     (parsers_at N (list comment) cstate (list comment) scan_err (policy_ops (pr_lines p1)) (depth_fuel p1))
-    (init_state N (list comment) cstate scan_err 0 {| c_all := []; c_lead := [] |} (pr_elems p1) (pr_term p1)) = Ok n1 t1 ->
+    (init_state N (list comment) cstate scan_err 0 {| c_all := []; c_lead := []; c_prev := None |} (pr_elems p1) (pr_term p1)) = Ok n1 t1 ->
   exists n2 t2,
     entry_expression _ _ _ _ _ (policy_ops (pr_lines p2))
       (parsers_at N (list comment) cstate (list comment) scan_err (policy_ops (pr_lines p2)) (depth_fuel p2))
-      (init_state N (list comment) cstate scan_err k {| c_all := []; c_lead := [] |} (pr_elems p2) (pr_term p2)) = Ok n2 t2 /\
+      (init_state N (list comment) cstate scan_err k {| c_all := []; c_lead := []; c_prev := None |} (pr_elems p2) (pr_term p2)) = Ok n2 t2 /\
     erase n2 = erase n1 /\ positions n2 = map (fun a => a + k) (positions n1).
 Proof. exact shift_run_expression. Qed.
 Print Assumptions C15_shift_expression_partial.
